@@ -87,4 +87,20 @@ def c11ClosureOk (confined : List (String × String)) (c : C11Closure) : Bool :=
 
 def c11ClosuresOk (confined : List (String × String)) (cs : List C11Closure) : Bool := cs.all (c11ClosureOk confined)
 
+/-! ### fixed-width integers (round 4: the index arithmetic behind the shared counters, `Gen.Locks.calcIndexBody` …) -/
+
+/-- 2 ^ bits for the widths Go has (numerals, so that `omega` sees them) -/
+def goPow (bits : Nat) : Int :=
+  match bits with
+  | 8 => 256
+  | 16 => 65536
+  | 32 => 4294967296
+  | _ => 18446744073709551616
+
+/-- the value of an integer after conversion to (or arithmetic in) a Go integer type of `bits` bits: reduced modulo
+2 ^ bits into `[0, 2^bits)` for an unsigned type, into `[-2^(bits-1), 2^(bits-1))` for a signed one -/
+def goWrap (bits : Nat) (signed : Bool) (x : Int) : Int :=
+  let r := x % goPow bits
+  if signed && 2 * r ≥ goPow bits then r - goPow bits else r
+
 end Pandora.Go
